@@ -49,6 +49,17 @@ func execLine(line string) (ans string) {
 	if len(toks) == 0 {
 		return ""
 	}
+	// argument guards: what this operation parses from its line is compared after the operation
+	wasTracking := tracking
+	tracking = true
+	nb, nk := len(trackedSlice), len(trackedKeys)
+	defer func() {
+		if bad := argumentsIntact(nb, nk); bad != "" && !strings.HasPrefix(ans, "panic ") {
+			ans = bad
+		}
+		trackedSlice, trackedKeys = trackedSlice[:nb], trackedKeys[:nk]
+		tracking = wasTracking
+	}()
 	if toks[0] == "seq" {
 		// seq <op A> ;; <op B> …: run the operations in order on shared key objects (identical key tokens denote
 		// the same key.Key map), answer the last one
